@@ -1,0 +1,82 @@
+//go:build verif
+
+// Contracts for govc (contract-based deductive verification, /verif). Comment-only file:
+// it is compiled only under the build tag "verif" and contains no code.
+
+package hpack
+
+//@ package_invariant[sentinel_errors] errNeedMore != nil
+
+//@ spec vmask(n byte) uint64 := (uint64(1) << uint64(n)) - 1
+//@ spec vacc(p []byte, j int) uint64 := j <= 0 ? 0 : vacc(p, j-1) + (uint64(p[j] & 127) << uint64(7*(j-1)))
+
+//@ func readVarInt
+//@   props C31
+//@   arith bv
+//@   nopanic
+//@   requires 1 <= n && n <= 8
+//@   modifies nothing
+//@   let c := len(p) - len(remain)
+//@   ensures[remain_is_a_suffix_of_p] base(remain) == base(p) && off(remain) + len(remain) == off(p) + len(p) && 0 <= c && c <= len(p)
+//@   ensures[error_consumes_nothing] err != nil ==> i == 0 && sameslice(remain, p)
+//@   ensures[success_consumes] err == nil ==> c >= 1
+//@   ensures[short_form!bv] err == nil && c == 1 ==> i == (uint64(p[0]) & vmask(n)) && i < vmask(n)
+//@   ensures[long_form_shape!bv] err == nil && c != 1 ==> c <= 10 && (uint64(p[0]) & vmask(n)) == vmask(n) && p[c-1] & 128 == 0 && (forall t int :: 1 <= t && t < c-1 ==> p[t] & 128 != 0)
+//@   ensures[long_form_value!bv] err == nil && c != 1 ==> i == vmask(n) + vacc(p, c-1)
+//@   let j := off(p) - off(origP)
+//@   loop 1 invariant[window] base(p) == base(origP) && off(p) + len(p) == off(origP) + len(origP) && 1 <= j && j <= len(origP) && j <= 9
+//@   loop 1 invariant[shift] m == uint64(7*(j-1))
+//@   loop 1 invariant[prefix_is_mask] (uint64(origP[0]) & vmask(n)) == vmask(n)
+//@   loop 1 invariant[continuation_bits] forall t int :: 1 <= t && t < j ==> origP[t] & 128 != 0
+//@   loop 1 invariant[value] i == vmask(n) + vacc(origP, j-1)
+
+//@ spec nn(x int) int := x < 0 ? 0 : x
+//@ spec entSize(f HeaderField) int := len(f.Name) + len(f.Value) + 32
+//@ spec ssum(s []HeaderField) int := len(s) == 0 ? 0 : entSize(s[0]) + nn(ssum(s[1:]))
+
+//@ func (HeaderField).Size
+//@   props C30
+//@   nopanic
+//@   requires entSize(hf) < 4294967296
+//@   modifies nothing
+//@   ensures int(result0) == entSize(hf)
+
+//@ func (*dynamicTable).evict
+//@   props C30
+//@   nopanic
+//@   requires dt != nil && int(dt.size) == nn(ssum(dt.ents)) && nn(ssum(dt.ents)) < 4294967296
+//@   modifies dt.ents, dt.size, dt.ents[..]
+//@   ensures[within_negotiated_size] dt.size <= dt.maxSize
+//@   ensures[max_unchanged] dt.maxSize == old(dt.maxSize)
+//@   loop 1 invariant[size_is_sum] int(dt.size) == nn(ssum(dt.ents)) && nn(ssum(dt.ents)) < 4294967296
+//@   loop 1 invariant[window] base(dt.ents) == base(base) && off(dt.ents) + len(dt.ents) == off(base) + len(base) && len(dt.ents) <= len(base) && cap(dt.ents) - len(dt.ents) == cap(base) - len(base)
+
+//@ func (*dynamicTable).setMaxSize
+//@   props C30
+//@   nopanic
+//@   requires dt != nil && int(dt.size) == nn(ssum(dt.ents)) && nn(ssum(dt.ents)) < 4294967296
+//@   modifies dt.ents, dt.size, dt.maxSize, dt.ents[..]
+//@   ensures[new_limit_in_force] dt.maxSize == v && dt.size <= v
+
+//@ func (*Decoder).maxTableIndex
+//@   props C31
+//@   nopanic
+//@   requires d != nil
+//@   modifies nothing
+//@   ensures result0 == len(d.dynTab.ents) + 61
+
+//@ func (*Decoder).at
+//@   props C31
+//@   nopanic
+//@   requires d != nil
+//@   modifies nothing
+//@   ensures[index_zero_and_beyond_tables_rejected] ok <==> (1 <= i && i <= uint64(len(d.dynTab.ents) + 61))
+//@   ensures[static_entry] ok && i <= 61 ==> hf == staticTable[i-1]
+//@   ensures[dynamic_entry_newest_first] ok && i > 61 ==> hf == d.dynTab.ents[len(d.dynTab.ents) - (int(i) - 61)]
+
+//@ func (*Decoder).parseDynamicTableSizeUpdate
+//@   props C31
+//@   nopanic
+//@   requires d != nil && int(d.dynTab.size) == nn(ssum(d.dynTab.ents)) && nn(ssum(d.dynTab.ents)) < 4294967296
+//@   ensures[update_above_allowed_maximum_is_an_error] result0 == nil ==> d.dynTab.maxSize <= old(d.dynTab.allowedMaxSize) && d.dynTab.size <= d.dynTab.maxSize
+//@   ensures[error_changes_nothing] result0 != nil ==> d.dynTab.maxSize == old(d.dynTab.maxSize) && d.dynTab.size == old(d.dynTab.size) && sameslice(d.buf, old(d.buf))
